@@ -1,10 +1,13 @@
 import Acra.Model.Ch11Video
+import Acra.Lemmas.Ch11Video
+import Acra.Lemmas.ReviewC06
+import Acra.Props.C13.Mpeg
+import Acra.Props.C04.Video
 namespace Acra.Props.C13
-open Acra.Py Acra.Model.Ch11Pay Acra.Model.Ch11Pay.Video Acra.Gen.Ch11Video
+open Acra.Py Acra.Model.Ch11Pay.Video Acra.Model.MPEGTS Acra.Gen.Ch11Video Acra.Lemmas.MPEGTS
 
-/-- `VideoFormat2.unpack` assigns the channel-specific word, the data-stream bit and (through the nested
-    `MPEGTS.unpack`, which starts from an empty list) the transport-stream packets: a successful unpack
-    does not depend on the prior state; `pack` does not modify the object -/
+/-- `VideoFormat2.unpack` assigns the channel-specific word, the data-stream bit and a NEW `MPEGTS` object decoded from
+    the rest of the buffer: a successful unpack does not depend on the prior state -/
 theorem Video_unpack_state_independent (t u : State) (buf : Bytes) (h : (unpack t buf).2 = .ok ()) :
     unpack t buf = unpack u buf := by
   revert h
@@ -13,11 +16,34 @@ theorem Video_unpack_state_independent (t u : State) (buf : Bytes) (h : (unpack 
   all_goals simp_all
 
 set_option maxRecDepth 20000 in
-/-- non-vacuity: a video payload object holding two stale chunks decodes a payload of one 188-byte transport packet -/
+/-- non-vacuity: a video payload object holding a stale block decodes the C04 example stream (three packets, two of
+    them with adaptation fields) -/
 example :
-    let a : State := ⟨0x1000, 1, [[0x47, 0x01, 0x00, 0x10] ++ List.replicate 184 0xAB]⟩
-    let t : State := ⟨5, 0, [[1], [2]]⟩
-    ∃ b, pack a = .ok b ∧ b.length = 192 ∧ (unpack t b).2 = .ok () ∧ (unpack t b).1.blocks.length = 1 :=
-  ⟨_, rfl, rfl, rfl, rfl⟩
+    let t : State := ⟨5, 0, { blocks := [{ Pkt.fresh with pid := 9, payload := [1] }] }⟩
+    ((pack C04.videoExample).2.toOption.map fun b =>
+      (b.length, (unpack t b).2.toOption, (unpack t b).1.mpegts.blocks.length)) = some (568, some (), 3) := by
+  decide +kernel
+
+/-- `VideoFormat2.pack` mutates the adaptation-field objects of its blocks (through `MPEGTS.pack`); packing twice gives
+    the same result and leaves every field as the first call left it -/
+theorem Video_pack_idempotent (s : State) (h : ∀ p ∈ s.mpegts.blocks, Pkt_WF p) : pack (pack s).1 = pack s := by
+  have hi := MPEGTS_pack_idempotent s.mpegts h
+  simp only [pack]
+  cases hh : structPack VID_pack_fmt0 [s.channel_specific_word] with
+  | error e => simp only [hh]
+  | ok hb =>
+    simp only
+    cases hp : TS.pack s.mpegts with
+    | mk ts r =>
+      rw [hp] at hi
+      simp only at hi
+      cases r with
+      | ok body => simp only [hh, hi]
+      | error e => simp only [hh, hi]
+
+/-- non-vacuity: the blocks of the C04 example are well formed, and the first `pack` changes the object (the splicing
+    flag of the second block is switched on) -/
+example : (∀ p ∈ C04.videoExample.mpegts.blocks, Pkt_WF p) ∧ (pack C04.videoExample).1 ≠ C04.videoExample := by
+  decide +kernel
 
 end Acra.Props.C13
